@@ -73,6 +73,9 @@ type c16Node struct {
 	conn *grpc.ClientConn
 	ap   *replication.EngineApplier
 	mode string
+	// the transaction manager as a component that was wired up before the node took its role
+	// (before replication.Manager.Start made the engine read-only) holds it
+	early interface{}
 }
 
 var c16DialTimeout = 20 * time.Millisecond
@@ -88,6 +91,9 @@ func c16Start(mode string, mgr, enabled, force bool, paddr, laddr string) (*c16N
 		return nil, err
 	}
 	n.e = e
+	if res, _, ok := callFacade(e, "GetTransactionManager", nil, nil); ok && len(res) == 1 {
+		n.early = res[0].Interface()
+	}
 	var info service.ReplicationInfoProvider
 	if mgr {
 		rc := replication.DefaultReplicaConfig()
@@ -915,6 +921,10 @@ func runC16(c *Case, out func(string)) {
 				break
 			}
 			res, _, ok := callFacade(n.e, "GetTransactionManager", nil, nil)
+			if ok && len(l) > 3 && l[3] == "early" && n.early != nil {
+				// the accessor's result taken when the node was opened, before it became a replica
+				res = []reflect.Value{reflect.ValueOf(n.early)}
+			}
 			if !ok || len(res) != 1 || !res[0].MethodByName("BeginTransaction").IsValid() {
 				out("B err:no_accessor")
 				break
@@ -1445,7 +1455,11 @@ func genC16(w *bufio.Writer, seed int64, n int, tier string) {
 					m = "ro" // a read-write begin would wait for the open readers
 				}
 				if r.Intn(5) == 0 {
-					fmt.Fprintf(w, "l begin %s\n", m) // through GetTransactionManager()
+					if r.Intn(2) == 0 {
+						fmt.Fprintf(w, "l begin %s early\n", m) // through a GetTransactionManager() result taken at open
+					} else {
+						fmt.Fprintf(w, "l begin %s\n", m) // through GetTransactionManager()
+					}
 				} else {
 					fmt.Fprintf(w, "%s BeginTransaction %s\n", api, m)
 				}
